@@ -15,7 +15,7 @@ pub fn judge(input: &[u8], with_storage: bool, loc: &mut Local) {
         Ok(Ok((_, ParsedMessage::Item(m)))) => m,
         Ok(_) => {
             loc.outcome("no message (premise false)");
-            loc.state(mix(fnv64(input), with_storage as u64), false);
+            loc.state(mix(loc.input_hash(input), with_storage as u64), false);
             return;
         }
         Err(_) => {
@@ -36,10 +36,10 @@ pub fn judge(input: &[u8], with_storage: bool, loc: &mut Local) {
     let declared = m.header.overall_length() as usize + if m.storage_header.is_some() { 16 } else { 0 };
     if ser.len() != declared {
         loc.outcome("length premise false");
-        loc.state(mix(fnv64(input), with_storage as u64), false);
+        loc.state(mix(loc.input_hash(input), with_storage as u64), false);
         return;
     }
-    loc.state(mix(fnv64(input), with_storage as u64), true);
+    loc.state(mix(loc.input_hash(input), with_storage as u64), true);
     loc.transitions += 1;
     match catch(|| dlt_message(&ser, None, m.storage_header.is_some()).map(|(rest, pm)| (rest.len(), pm))) {
         Err(p) => loc.violation("re-parse panics", format!("dlt_message panicked ({}) on the re-serialisation {} of {}", p, hex_short(&ser), fp(&m)), details()),
